@@ -94,9 +94,10 @@ pub fn connect_and_run(
 /// string, user properties, topic alias maximum, server keep alive, response information, assigned
 /// client identifier); bit 2: the CONNACK arrives through an AUTH exchange (connect -> AUTH ->
 /// authorize -> CONNACK); bit 3: the CONNACK's properties are written in reverse order; bit 4: the
-/// client's own CONNECT announces limits for the *inbound* direction (Receive Maximum 1, Maximum
-/// Packet Size 16 KiB, topic alias maximum, keep alive, will, credentials), which never limit what
-/// it may send.
+/// client's own CONNECT announces limits for the *inbound* direction (Receive Maximum 1000, Maximum
+/// Packet Size 1 MiB, topic alias maximum, keep alive, will, credentials), which never limit what
+/// it may send; bit 5 (with bit 4; only for histories without inbound PUBLISH packets, where the
+/// scripted broker cannot exceed them): those limits are 1 and 256 bytes.
 pub fn connect_and_run_v(w: &mut World, spec: ConnectSpec, connack: &rc::Connack, plan: &WritePlan, variant: u8) -> Result<(), String> {
     if variant == 0 {
         return connect_and_run(w, spec, connack, plan);
@@ -117,8 +118,9 @@ pub fn connect_and_run_v(w: &mut World, spec: ConnectSpec, connack: &rc::Connack
         connack.shared_available.get_or_insert(true);
     }
     if variant & 16 != 0 {
-        spec.receive_maximum.get_or_insert(1);
-        spec.maximum_packet_size.get_or_insert(16 * 1024);
+        // generous, so that the scripted broker never exceeds what the client asked for
+        spec.receive_maximum.get_or_insert(if variant & 32 != 0 { 1 } else { 1000 });
+        spec.maximum_packet_size.get_or_insert(if variant & 32 != 0 { 256 } else { 1 << 20 });
         spec.topic_alias_maximum.get_or_insert(3);
         spec.keep_alive.get_or_insert(5);
         spec.username.get_or_insert("user".into());
@@ -178,6 +180,13 @@ pub fn connect_and_run_v(w: &mut World, spec: ConnectSpec, connack: &rc::Connack
 pub fn prologue_variant() -> proptest::strategy::BoxedStrategy<u8> {
     use proptest::prelude::*;
     prop_oneof![1 => Just(0u8), 1 => 0u8..32].boxed()
+}
+
+/// `prologue_variant` for histories in which the broker sends no PUBLISH: the client-side limits
+/// may then be tiny
+pub fn prologue_variant_no_inbound() -> proptest::strategy::BoxedStrategy<u8> {
+    use proptest::prelude::*;
+    prop_oneof![2 => Just(0u8), 2 => 0u8..32, 1 => (0u8..16).prop_map(|v| v | 48)].boxed()
 }
 
 pub fn first_panic(w: &World) -> Option<String> {
